@@ -93,6 +93,7 @@ def run(prog, chk):
     integer_table(prog, chk)
     imprint_table(prog, chk)
     legacy_id_table(prog, chk)
+    signature_structure_table(prog, chk)
     _run(prog, chk)
 
 
@@ -256,6 +257,34 @@ def _run(prog, chk):
     require_chain(chk, "C10.values", fdg, "*" + od, stores_through_param(fdg, od), [
         g_cmp("==", lambda f, x: lvalue_key(x, f) == dl, lambda f, x: "KSI_getHashLength(" in show(f.deep(x), f), "digest length == algorithm's length"),
     ])
+
+
+# ---------------------------------------------------------------------- cross-element constraints of a signature (R6)
+def signature_structure_table(prog, chk):
+    """checkSignatureInternals - what a signature has to satisfy beyond its template: at least one aggregation chain, a calendar
+    authentication record or a publication record only together with a calendar chain, and never both of them.  All 24 combinations."""
+    import itertools
+    from ksirules.interp import list_overrides
+    chk.rule("C10.structure", "signature structure beyond the template: presence combinations of chains / calendar chain / authentication record / publication (decision table)", floor=24)
+    fn = prog.fn("checkSignatureInternals", "signature_builder.c")
+    cp, sp = [p["n"] for p in fn.params]
+    for chains, cal, auth, pub in itertools.product(("none", "empty", "one", "two"), (0, 1), (0, 1), (0, 1)):
+        lists = {"CL": {"empty": [], "one": [Ptr("A0")], "two": [Ptr("A0"), Ptr("A1")]}.get(chains, [])}
+        length, element_at = list_overrides(lists)
+        inputs = {cp: Ptr("ctx"), sp: Ptr("SIG"), "SIG->aggregationChainList": 0 if chains == "none" else Ptr("CL"), "SIG->calendarChain": Ptr("CAL") if cal else 0,
+                  "SIG->calendarAuthRec": Ptr("AUTH") if auth else 0, "SIG->publication": Ptr("PUB") if pub else 0}
+        ov = {"KSI_AggregationHashChainList_length": length, "KSI_AggregationHashChainList_elementAt": element_at}
+        I = Interp(fn, inputs=inputs, call_model=succeed_model(prog, ov), on_unknown="stop", prog=prog)
+        paths = I.run()
+        chk.paths += len(paths)
+        inst = "signature[aggregation chains: %s, calendar chain %s, authentication record %s, publication %s]" % (
+            chains, "present" if cal else "absent", "present" if auth else "absent", "present" if pub else "absent")
+        if len(paths) != 1 or paths[0].undetermined or paths[0].ret is TOP:
+            raise AnalysisBroken("checkSignatureInternals: evaluation not determined for %s: %s" % (inst, [q.undetermined[:1] for q in paths]))
+        want_ok = chains in ("one", "two") and not ((auth or pub) and not cal) and not (auth and pub)
+        got = paths[0].ret
+        chk.ob("C10.structure", inst, (got == 0) == want_ok, "expected %s; source returns %s" % ("KSI_OK" if want_ok else "a refusal", hex(got) if isinstance(got, int) else got),
+               loc=fn.loc(), fn=fn)
 
 
 # ---------------------------------------------------------------------- UTF-8 structure table (R6)
